@@ -605,6 +605,30 @@ func (m *monitor) doBase(rng *vf.RNG, i int) {
 		}
 	}
 
+	// ---- family 2b: arithmetic variants of the last byte of an Ethereum-type signature (the recovery id):
+	// +27 (the other common convention), +1, ^1, absolute 27..30, +4, 0xff — only the exact id may verify
+	for si, s := range b.sets {
+		for gi, sg := range s.Sigs {
+			key := s.Keys[sb.who[si][gi]]
+			if key.Kind != txgen.EthSecp256k1 || len(sg) == 0 {
+				continue
+			}
+			last := sg[len(sg)-1]
+			for _, nv := range []byte{last + 27, last + 1, last ^ 1, 27, 28, 29, 30, last + 4, 0xff, last + 35} {
+				if nv == last {
+					continue
+				}
+				c := b.clone()
+				ns := append([]byte{}, sg...)
+				ns[len(ns)-1] = nv
+				c.sets[si].Sigs[gi] = ns
+				r.Count("eth_recovery_id_variants")
+				m.expectReject("eth-recovery-id", fmt.Sprintf("was=%d:now=%d", last, nv), b, c.assemble(), fmt.Sprintf("er/%d/%d/%d/%d", i, si, gi, nv),
+					map[string]interface{}{"set": si, "signature": gi, "recovery_id_was": last, "now": nv, "signature_hex": vf.Hex(sg)})
+			}
+		}
+	}
+
 	// pick a target set for the per-set families: the payer's set and one random set
 	targets := []int{b.payer}
 	if len(b.sets) > 1 {
@@ -999,6 +1023,7 @@ func main() {
 		"multisig_form_with_one_key_accepted":   r.Counter("observed/multisig-form-with-one-key/accepted"),
 		"signature_section_flip_still_accepted": r.Counter("observed/flip-signature-section/accepted"),
 	})
+	r.Require("eth_recovery_id_variants", 100)
 	r.Add("verdict_depends_on_signer_query_before_validation", verdictDependsOnSignerQuery.Load())
 	r.Assume("ontology-crypto's signature.Verify is the definition of 'a signature verifies' (oracle b re-uses it; it is not part of /repo)")
 	r.Assume("signature sets carry exactly m signatures (DESIGN domain note): surplus signatures and scripts listing one key twice are observed, not judged")
